@@ -180,5 +180,5 @@ pub fn property(tier: Tier) -> Property {
             exhaustive: false,
         }));
     }
-    Property { id: "C05", stages, assumptions: vec![] }
+    Property { id: "C05", scale: tier.pick(5, 2), stages, assumptions: vec![] }
 }
